@@ -8,22 +8,22 @@ ID = "C15"
 LEVEL = "proof"
 LEAN_MODULES = ["OsmoVerif.Props.C15"]
 DRIVER_MODULES = ["Trxd", "TrxdDump"]
-LEAN_MODEL_MODULES = ["OsmoVerif.Model.TrxdDump", "OsmoVerif.Model.Trxd", "OsmoVerif.Lemmas.TrxdDump", "OsmoVerif.Lemmas.Trxd",
-                      "OsmoVerif.Props.C01"]
+LEAN_MODEL_MODULES = ["OsmoVerif.Model.TrxdDump", "OsmoVerif.Model.TrxdDumpHist", "OsmoVerif.Model.Trxd", "OsmoVerif.Lemmas.TrxdDump",
+                      "OsmoVerif.Lemmas.TrxdDumpHist", "OsmoVerif.Lemmas.Trxd", "OsmoVerif.Props.C01"]
 ASSUMPTIONS = [
-    "theorems are about OsmoVerif.Model.TrxdDump (hand model of DATADump.dump_msg/parse_hdr and DATADumpFile._seek2msg/_parse_msg/parse_msg/parse_all/append_msg/append_all) on top of the TRXD model of C01",
-    "the capture file is a byte list with a cursor with io.BytesIO semantics (short reads at EOF, seeks past EOF allowed, writes at the cursor); the theorems speak about messages appended to an empty file and then read",
-    "stored messages are valid (validate() = ok, soft bits in -127..127); 'equal in every field' = carried(m) as in C01",
-    "tags and HDR_LENGTH regenerated from data_dump.py on every run; control flow tied to the real DATADumpFile on io.BytesIO by differential execution (all versions/modulations/NOPE, skip/count, indices, truncation offsets, corrupted files)",
+    "theorems are about OsmoVerif.Model.TrxdDump / Model.TrxdDumpHist (hand model of DATADump.dump_msg/parse_hdr and DATADumpFile._seek2msg/_parse_msg/parse_msg/parse_all/append_msg/append_all, and of histories of these operations on ONE object: content and cursor carried from one call to the next) on top of the TRXD model of C01",
+    "the capture file is a byte list with a cursor with io.BytesIO semantics (short reads at EOF, seeks past EOF allowed, seek(0, 2), writes at the cursor); the object keeps nothing but this file between two calls (an attribute added to DATADumpFile that influences results shows up as a correspondence break and is searched by the history oracle); a crash is modelled as: the file is cut at octet n and a NEW object is opened on it",
+    "stored messages are valid (validate() = ok, soft bits in -127..127); 'equal in every field' = carried(m) as in C01; after a crash inside a record the property speaks about reads only (appends behind a partial record are covered by history_independence on the content level, not on the message level)",
+    "tags and HDR_LENGTH regenerated from data_dump.py on every run; control flow tied to the real DATADumpFile by differential execution: fresh readers on io.BytesIO (all versions/modulations/NOPE, skip/count, indices, truncation offsets, corrupted files) and histories on one live object made in the three ways the class allows (io.BytesIO, a file object opened w+b, a path the class opens a+b; files under the run's scratch directory): the OS file and CPython's buffered I/O are thereby exercised, not modelled",
 ]
 MANIFEST = {
-    "text": "Lean 4 theorems parse_all_stored, parse_msg_idx, skip_count_slice (incl. the documented range error), truncated_prefix / truncated_parse_msg / truncated_skip_count (for EVERY cut offset: exactly the messages completely written before the cut, no exception; k characterised by the file lengths of the first k and k+1 messages), by induction over the record list using C01's round trips; termination of the parse_all loop proved; model tied to the real DATADumpFile on io.BytesIO (seeded message lists of every class/version/modulation/NOPE, skip/count/index combinations, truncation offsets around every record boundary - thorough: every offset of 80 files -, corrupted files); independent oracle on the real code",
-    "note": "trusted: Lean kernel (+propext, Classical.choice, Quot.sound), gen/trxd_consts.py, harness/py/trxd_harness.py, lib/trxd.py; file I/O is modelled (byte list with cursor), not the OS; on a cut file a skip beyond the complete messages yields False or [] (both: no message, no exception) - stated exactly so in truncated_skip_count",
-    "technique": "Lean 4 proof by induction over records over a hand model (well-founded loop); differential correspondence; oracle with independently computed record boundaries",
+    "text": "Lean 4 theorems parse_all_stored, parse_msg_idx, skip_count_slice (incl. the documented range error), truncated_prefix / truncated_parse_msg / truncated_skip_count (for EVERY cut offset: exactly the messages completely written before the cut, no exception; k characterised by the file lengths of the first k and k+1 messages), by induction over the record list using C01's round trips; termination of the parse_all loop proved. Histories on ONE object: history_independence (for every content, cursor and history - invalid messages, garbage, crashes included - no read raises and every read answers what a fresh reader answers on the bytes stored at that moment; appends go to the end of the content wherever a read left the cursor), read_after_history, history_reads_stored / history_reads_stored_from (every history of appends of valid messages and reads: each parse_msg / parse_all returns index / slice of the messages appended so far, the file at the end equals the one a single append_all writes), history_then_crash (any cut offset after any history, then any reads: the completely written messages), history_crash_on_boundary (cut behind record k: any further history, appends included, as on a capture of the first k messages). Model tied to the real DATADumpFile: fresh readers on io.BytesIO (seeded message lists of every class/version/modulation/NOPE, skip/count/index combinations, truncation offsets around every record boundary - thorough: every offset of 80 files -, corrupted files) and histories on one live object on io.BytesIO / w+b file object / path (a+b): appends interleaved with reads, accesses beyond the end and partial reads before further appends, walks until None, crashes on and off record boundaries, invalid messages, garbage content; independent oracle on the real code for reads and for histories (witnesses shrunk to a minimal history)",
+    "note": "trusted: Lean kernel (+propext, Classical.choice, Quot.sound), gen/trxd_consts.py, harness/py/trxd_harness.py, lib/trxd.py; file I/O is modelled (byte list with cursor), not the OS; on a cut file a skip beyond the complete messages yields False or [] (both: no message, no exception) - stated exactly so in truncated_skip_count / CutAnswer; the defect found while building the history check (append_msg wrote at the cursor a previous read had left; fixed in /repo by a6e12fa) stays in the corpus as the fixed history append-after-partial-read",
+    "technique": "Lean 4 proof by induction over records and over histories over a hand model (well-founded loop); differential correspondence (single calls and whole histories per request line); oracle with record boundaries measured from the real writer",
     "design_ref": "DESIGN.md section 5 C15",
 }
 MODELLED = ["dump_msg", "parse_hdr", "_seek2msg", "_parse_msg", "parse_msg", "parse_all", "append_msg", "append_all"]
-KNOWN_HASH = "3e978f0682b84909"
+KNOWN_HASH = "10d1b7ef6e6ed85a"
 
 
 def gen(run):
@@ -180,6 +180,324 @@ def impl_reads(run):
     return run.c15_impl
 
 
+# ---- histories on ONE DATADumpFile object ---------------------------------------------------------
+# A history is a list of operations ("A", (k, m, size)) | ("L", [(k, m, size), ...]) | ("M", idx) |
+# ("P", skip, count) | ("X", n); size = octets the REAL writer produces for the message on a fresh file
+# (measured without the object under test; only used to place cuts and to know which messages were
+# completely written before a cut).
+MODES = ("b", "w", "p")
+HENV = None
+
+
+def henv(run):
+    return {"VERIF_SCRATCH": run.scratch}
+
+
+def hist_line(mode, init, ops):
+    t = ["dump.hist", mode, T.enc_octets(init)]
+    for op in ops:
+        if op[0] == "A":
+            t += ["A", op[1][0], op[1][1].line()]
+        elif op[0] == "L":
+            t += ["L", str(len(op[1]))] + [k + " " + m.line() for k, m, _ in op[1]]
+        elif op[0] == "M":
+            t += ["M", str(op[1])]
+        elif op[0] == "P":
+            t += ["P", T.s(op[1]), T.s(op[2])]
+        else:
+            t += ["X", str(op[1])]
+    return " ".join(t)
+
+
+def hist_show(ops):
+    """short readable form of a history (witnesses)"""
+    out = []
+    for op in ops:
+        if op[0] == "A":
+            out.append("append_msg(%s)" % msg_class(op[1]))
+        elif op[0] == "L":
+            out.append("append_all([%s])" % ", ".join(msg_class(x) for x in op[1]))
+        elif op[0] == "M":
+            out.append("parse_msg(%d)" % op[1])
+        elif op[0] == "P":
+            out.append("parse_all(skip=%s, count=%s)" % (op[1], op[2]))
+        else:
+            out.append("crash: file cut at octet %d and opened again" % op[1])
+    return "; ".join(out)
+
+
+def msg_class(x):
+    k, m = x[0], x[1]
+    if k == "T":
+        return "TxMsg v%d %d bits" % (m.ver, len(m.burst))
+    if m.ver == 1 and m.nope:
+        return "RxMsg v1 NOPE"
+    return "RxMsg v%d %s %d bits" % (m.ver, m.mod if m.ver == 1 else "-", len(m.burst))
+
+
+def split_answers(a):
+    """'ok a1 ; a2 ; ... | octets' -> ([a1, ...], octets) or None when the harness answered an exception"""
+    if not a.startswith("ok "):
+        return None
+    body, _, tail = a[3:].rpartition(" | ")
+    return ([x.strip() for x in body.split(" ; ")] if body.strip() else []), tail.strip()
+
+
+def hist_expect(ops):
+    """what the property demands of every operation of a history that starts on an empty capture.
+    Returns a list (one entry per operation, as far as the property speaks):
+      ("append",)                                   the append of valid messages must return
+      ("read", exp)                                 exp as for judge(): (kind, all messages, k complete, skip, count, idx)
+      ("cut",)
+    After a crash in the middle of a record the property speaks about reads only: the list ends at the
+    first append after such a crash."""
+    stored = []          # (k, m, size): the messages appended so far; after a crash inside a record: up to the cut one
+    kc = None            # None: the file ends on a record boundary; else the number of complete records (stored[kc] is cut)
+    cut_len = None       # length of the file when kc is not None
+    out = []
+    for op in ops:
+        if op[0] in ("A", "L"):
+            if kc is not None:
+                break
+            stored = stored + ([op[1]] if op[0] == "A" else list(op[1]))
+            out.append(("append",))
+        elif op[0] == "X":
+            cum = [0]
+            for x in stored:
+                cum.append(cum[-1] + x[2])
+            n = op[1]
+            if n < (cum[-1] if kc is None else cut_len):
+                k = max(j for j in range(len(cum)) if cum[j] <= n)
+                if cum[k] == n:
+                    stored, kc, cut_len = stored[:k], None, None
+                else:
+                    stored, kc, cut_len = stored[:k + 1], k, n
+            out.append(("cut",))
+        else:
+            ms = [(x[0], x[1]) for x in stored]
+            k = len(ms) if kc is None else kc
+            if op[0] == "M":
+                out.append(("read", ("msg", ms, k, None, None, op[1])))
+            else:
+                out.append(("read", ("all", ms, k, op[1], op[2], None)))
+    return out
+
+
+def hist_judge(ops, a):
+    """None or (index of the failing operation, what fails, what the property demands)"""
+    sp = split_answers(a)
+    exp = hist_expect(ops)
+    if sp is None:
+        return (0, "the history raised out of the harness: %s" % a[:80], "answers")
+    ans = sp[0]
+    for i, e in enumerate(exp):
+        if i >= len(ans):
+            return (i, "no answer for operation %d (an exception left a read method: %s)" % (i, ans[-1] if ans else "-"), "an answer")
+        x = ans[i]
+        if e[0] == "append":
+            if x != "D":
+                return (i, "append of valid messages answered %s" % x, "D")
+        elif e[0] == "cut":
+            continue
+        else:
+            if x.startswith("E "):
+                return (i, "%s raised %s" % ("parse_msg" if e[1][0] == "msg" else "parse_all", x[2:]), "no exception")
+            j = judge(e[1], "ok " + x[2:])
+            if j:
+                return (i, j[0], j[1])
+    return None
+
+
+def take_msgs(run, n_min=1):
+    """a stored list with the record sizes measured from the real writer"""
+    fl, _, _ = files(run)
+    cand = [x for x in fl if x[1] is not None and len(x[0]) >= n_min]
+    ms, data, lens, _ = run.rng.choice(cand)
+    return [(k, m, lens[i + 1] - lens[i]) for i, (k, m) in enumerate(ms)]
+
+
+def rand_read(rng, n):
+    if rng.random() < 0.5:
+        return ("M", rng.choice([0, max(n - 1, 0), n, n + 1, n + 3, rng.randrange(n + 2)]))
+    skip = rng.choice([None, None, 0, 1, max(n - 1, 0), n, n + 1, n + 3, rng.randrange(n + 2)])
+    count = rng.choice([None, None, 1, 2, max(n, 1), n + 2])
+    return ("P", skip, count)
+
+
+def oob_read(rng, n):
+    """an access beyond the n stored messages (runs into EOF)"""
+    if rng.random() < 0.5:
+        return ("M", n + rng.choice([0, 1, 2, 5]))
+    return ("P", n + rng.choice([1, 2, 5]), rng.choice([None, 1, 2]))
+
+
+def partial_read(rng, n):
+    """a read that stops before the end of the file"""
+    if n >= 2 and rng.random() < 0.5:
+        return ("M", rng.randrange(n - 1))
+    return ("P", rng.choice([None, 0]), 1)
+
+
+def rand_hist(run, crash=True):
+    """mixed history of appends of valid messages and reads on one object, optionally crashes"""
+    rng = run.rng
+    msgs = take_msgs(run)
+    while len(msgs) < 3 and rng.random() < 0.7:
+        msgs = msgs + take_msgs(run)
+    msgs = msgs[:9]
+    ops, stored, i = [], [], 0
+    if rng.random() < 0.3:
+        ops.append(oob_read(rng, 0) if rng.random() < 0.6 else rand_read(rng, 0))       # reads on the empty capture
+    while i < len(msgs):
+        j = min(len(msgs), i + rng.choice([1, 1, 2, 3]))
+        chunk = msgs[i:j]
+        if len(chunk) == 1 and rng.random() < 0.6:
+            ops.append(("A", chunk[0]))
+        else:
+            ops.append(("L", chunk))
+        stored += chunk
+        i = j
+        n = len(stored)
+        r = rng.random()
+        if r < 0.35:
+            ops.append(oob_read(rng, n))
+        elif r < 0.6:
+            ops.append(partial_read(rng, n))
+        elif r < 0.7:
+            for idx in range(n + 1):                                  # walk until None
+                ops.append(("M", idx))
+        for _ in range(rng.choice([0, 0, 1, 2])):
+            ops.append(rand_read(rng, n))
+        if crash and rng.random() < 0.15 and stored:
+            cum = [0]
+            for x in stored:
+                cum.append(cum[-1] + x[2])
+            b = rng.choice(cum)
+            if rng.random() < 0.5:
+                n_cut = b                                             # on a record boundary: the history goes on
+            else:
+                n_cut = max(0, min(cum[-1], b + rng.choice([-4, -3, -2, -1, 1, 2, 3, 4, 5, 40])))
+            ops.append(("X", n_cut))
+            k = max(q for q in range(len(cum)) if cum[q] <= n_cut)
+            for _ in range(rng.choice([1, 2, 4])):
+                ops.append(rng.choice([("M", k), ("M", max(k - 1, 0)), ("P", None, None), ("P", k, None), ("P", k + 1, 1),
+                                       rand_read(rng, len(stored))]))
+            if cum[k] != n_cut and n_cut < cum[-1]:
+                return ops                                            # cut inside a record: reads only from here
+            stored = stored[:k]
+    n = len(stored)
+    for _ in range(rng.choice([1, 2, 3])):
+        ops.append(rand_read(rng, n))
+    if n and rng.random() < 0.5:
+        ops.append(("M", n - 1))
+    ops.append(("P", None, None))
+    return ops
+
+
+def fixed_hists(run):
+    """histories that are always there: (name, ops)"""
+    out = []
+    def fresh(n):
+        ms = []
+        while len(ms) < n:
+            ms += take_msgs(run)
+        return ms[:n]
+    a, b, c = fresh(3)
+    # a read that stops before the end of the file, then an append (append_msg once wrote at the cursor: /repo fix a6e12fa)
+    out.append(("append-after-partial-read", [("L", [a, b]), ("M", 0), ("A", c), ("P", None, None), ("M", 1), ("M", 2),
+                                              ("P", 1, 1), ("P", None, 1), ("A", a), ("P", None, None)]))
+    # accesses beyond the end, then more appends, then the new messages by index and by skip
+    m = fresh(7)
+    ops = [("L", m[:3])] + [("M", i) for i in range(4)] + [("M", 5), ("L", m[3:])] + [("M", i) for i in range(8)]
+    ops += [("P", None, None), ("P", 1, 2), ("P", 3, None), ("P", 4, 2), ("P", 5, 1), ("P", 6, 1), ("P", 7, None), ("P", 8, None)]
+    out.append(("out-of-range-then-append", ops))
+    m = fresh(4)
+    out.append(("range-error-on-empty-then-append", [("P", 3, None), ("P", 1, 1), ("M", 0), ("A", m[0]), ("P", 1, None), ("M", 0),
+                                                      ("P", 2, None), ("A", m[1]), ("P", 2, None), ("M", 1), ("P", 1, 1),
+                                                      ("L", m[2:]), ("M", 3), ("P", 3, 1), ("P", 2, 5), ("P", 5, None)]))
+    m = fresh(5)
+    tot3 = sum(x[2] for x in m[:3])
+    out.append(("crash-on-boundary-then-append", [("L", m[:3]), ("M", 4), ("X", tot3 - m[2][2]), ("M", 2), ("P", None, None),
+                                                  ("L", m[3:]), ("M", 2), ("M", 3), ("P", 2, None), ("P", None, None)]))
+    out.append(("crash-inside-record", [("L", m[:2]), ("M", 0), ("A", m[2]), ("M", 7), ("X", tot3 - 1), ("M", 2), ("M", 1), ("P", None, None),
+                                        ("P", 2, None), ("P", 3, 1), ("P", 1, 1), ("X", m[0][2] + 4), ("M", 1), ("P", 1, None), ("P", None, None)]))
+    return out
+
+
+def hist_requests(run):
+    """judged histories: (request line, ops, mode, name)"""
+    if getattr(run, "c15_hists", None) is not None:
+        return run.c15_hists
+    out = []
+    for name, ops in fixed_hists(run):
+        for mode in MODES:
+            out.append((hist_line(mode, b"", ops), ops, mode, name))
+    mult = 3 if drift(run) else 1
+    for i in range(run.scale(220, 2500) * mult):
+        ops = rand_hist(run)
+        mode = MODES[i % 3]
+        out.append((hist_line(mode, b"", ops), ops, mode, "seeded"))
+        if i % 10 == 0:                                               # the same history on the other two kinds of object
+            for m2 in MODES:
+                if m2 != mode:
+                    out.append((hist_line(m2, b"", ops), ops, m2, "seeded"))
+    run.c15_hists = out
+    return out
+
+
+def impl_hists(run):
+    if getattr(run, "c15_himpl", None) is None:
+        run.c15_himpl = vf.run_lines(T.HARNESS, [h[0] for h in hist_requests(run)], env=henv(run))
+    return run.c15_himpl
+
+
+def wild_hist_requests(run):
+    """histories the property does not speak about (only the tie model <-> code): invalid messages in
+    append_msg / append_all, appends after a crash inside a record, objects opened on arbitrary content"""
+    rng = run.rng
+    fl, _, _ = files(run)
+    out = []
+    for i in range(run.scale(120, 1200)):
+        ops = rand_hist(run)
+        r = rng.random()
+        init = b""
+        if r < 0.4:
+            # spoil one message of one append
+            idx = [q for q, op in enumerate(ops) if op[0] in ("A", "L")]
+            q = rng.choice(idx)
+            def spoil(x):
+                k, m, size = x
+                m = m.copy()
+                if k == "T":
+                    m.tn = rng.choice([8, None, -1])
+                else:
+                    m.rssi = rng.choice([0, None, -121])
+                return (k, m, size)
+            if ops[q][0] == "A":
+                ops[q] = ("A", spoil(ops[q][1]))
+            else:
+                l = list(ops[q][1])
+                z = rng.randrange(len(l))
+                l[z] = spoil(l[z])
+                ops[q] = ("L", l)
+        elif r < 0.7:
+            # cuts anywhere, the history goes on
+            tot = sum(x[2] for op in ops if op[0] in ("A", "L") for x in ([op[1]] if op[0] == "A" else op[1]))
+            for _ in range(rng.choice([1, 2])):
+                ops.insert(rng.randrange(1, len(ops) + 1), ("X", rng.randrange(tot + 2)))
+        else:
+            # the object is opened on (possibly corrupted / cut) content
+            cand = [x for x in fl if x[1]]
+            g = bytearray(rng.choice(cand)[1])
+            for _ in range(rng.choice([0, 1, 2])):
+                g[rng.randrange(len(g))] = rng.randrange(256)
+            if rng.random() < 0.5:
+                g = g[: rng.randrange(len(g) + 1)]
+            init = bytes(g)
+        out.append(hist_line(MODES[i % 3], init, ops))
+    return out
+
+
 def correspond(run, corr):
     fl, wreqs, wimpl = files(run)
     # invalid messages in the list: append_all raises
@@ -210,9 +528,23 @@ def correspond(run, corr):
             if data is not None and 0 < len(data) <= 1300:
                 sreqs.append("dump.cutscan %s %s %s" % (run.rng.choice(["-", "1"]), run.rng.choice(["-", "2"]), T.enc_octets(data)))
     simpl = vf.run_lines(T.HARNESS, sreqs)
-    allreq = wreqs + bad + rreqs + creqs + sreqs
+    hh = hist_requests(run)
+    hreqs = [h[0] for h in hh]
+    himpl = impl_hists(run)
+    wreqs2 = wild_hist_requests(run)
+    wimpl2 = vf.run_lines(T.HARNESS, wreqs2, env=henv(run))
+    allreq = wreqs + bad + rreqs + creqs + sreqs + hreqs + wreqs2
     model = vf.run_driver(allreq)
-    corr.compare(allreq, wimpl + bimpl + rimpl + cimpl + simpl, model)
+    corr.compare(allreq, wimpl + bimpl + rimpl + cimpl + simpl + himpl + wimpl2, model)
+    for (r, ops, mode, name), a in zip(hh, himpl):
+        corr.count(r, "history on one object (%s, %s)" % ({"b": "io.BytesIO", "w": "file object w+b", "p": "path, a+b"}[mode],
+                                                          "fixed" if name != "seeded" else "seeded"))
+        corr.evaluations += len(ops) - 1
+    for r, a in zip(wreqs2, wimpl2):
+        sp = split_answers(a)
+        corr.count(r, "history outside the property (invalid messages / appends after a cut / garbage content)%s"
+                   % (": append raised" if sp and any(x.startswith("E ") for x in sp[0]) else ""))
+        corr.evaluations += (len(sp[0]) - 1) if sp else 0
     for r, a in zip(wreqs + bad, wimpl + bimpl):
         corr.count(r, "write -> " + a.split()[0])
     for (r, exp), a in zip(rr, rimpl):
@@ -225,7 +557,13 @@ def correspond(run, corr):
     corr.exhaustive = run.thorough
     corr.rule = ("files written by the real append_all from seeded lists of valid messages (every class/version/modulation/NOPE); reads: "
                  "parse_all with skip in {None,0,1,n-1,n,n+1,n+3} x count in {None,1,2,n,n+2}, parse_msg for every index 0..n+1, truncations at "
-                 "every record boundary -4..+5 and seeded offsets (thorough: every offset), corrupted files; a case is a distinct request line")
+                 "every record boundary -4..+5 and seeded offsets (thorough: every offset), corrupted files; histories on ONE object made "
+                 "on io.BytesIO / a w+b file object / a path (a+b): appends (append_msg, append_all) interleaved with reads, accesses beyond "
+                 "the end and partial reads before further appends, walks until None, crashes on and off record boundaries, fixed histories "
+                 "(append-after-partial-read, out-of-range-then-append, ...), histories with invalid messages / on garbage content; "
+                 "a case is a distinct request line")
+    k = len(hreqs) // 2
+    corr.samples.append({"request": hreqs[k][:300], "impl": himpl[k][:300]})
     for i in (0, len(rreqs) // 3, 2 * len(rreqs) // 3, len(rreqs) - 1):
         corr.samples.append({"request": rreqs[i][:200], "impl": rimpl[i][:160]})
 
@@ -293,6 +631,65 @@ def search(run, corr, deep):
              "expected": want[:400],
              "failing_cases_in_this_run": len(fails)}
         found += run.report_witness(w)
+    found += search_hist(run, corr)
+    return found
+
+
+def shrink_hist(run, ops, mode, j):
+    """drop what follows the failing operation, then greedily remove operations while the history still
+    violates the property"""
+    ops = ops[:j[0] + 1]
+    for _ in range(40):
+        cands = [ops[:i] + ops[i + 1:] for i in range(len(ops))]
+        for i, op in enumerate(ops):                       # an append_all reduced to one of its messages
+            if op[0] == "L" and len(op[1]) > 1:
+                cands += [ops[:i] + [("L", op[1][:q] + op[1][q + 1:])] + ops[i + 1:] for q in range(len(op[1]))]
+        cands = [c for c in cands if c]
+        if not cands:
+            break
+        ans = vf.run_lines(T.HARNESS, [hist_line(mode, b"", c) for c in cands], env=henv(run))
+        better = []
+        for c, a in zip(cands, ans):
+            jj = hist_judge(c, a)
+            if jj:
+                better.append(c[:jj[0] + 1])
+        if not better:
+            break
+        ops = min(better, key=lambda c: (len(c), len(hist_line(mode, b"", c))))
+    return ops
+
+
+def search_hist(run, corr):
+    hh = hist_requests(run)
+    impl = impl_hists(run)
+    fails = []
+    nops = 0
+    for (r, ops, mode, name), a in zip(hh, impl):
+        nops += len(ops)
+        j = hist_judge(ops, a)
+        if j:
+            fails.append((r, ops, mode, name, a, j))
+    corr.distribution["oracle: histories judged"] = len(hh)
+    corr.distribution["oracle: operations in judged histories"] = nops
+    corr.distribution["oracle: violating histories"] = len(fails)
+    found = 0
+    fails.sort(key=lambda x: (x[3] == "seeded", len(x[0])))
+    seen = set()
+    for r, ops, mode, name, a, j in fails:
+        sig = (name if name != "seeded" else "", j[1].split(" returned")[0][:30])
+        if sig in seen or len(seen) >= 3:
+            continue
+        seen.add(sig)
+        small = shrink_hist(run, ops, mode, j)
+        req = hist_line(mode, b"", small)
+        a2 = vf.run_lines(T.HARNESS, [req], env=henv(run))[0]
+        j2 = hist_judge(small, a2)
+        if not j2:
+            small, req, a2, j2 = ops, r, a, j
+        w = {"kind": "capture-history", "request": req, "object": {"b": "io.BytesIO", "w": "file object opened w+b", "p": "path (opened a+b by the class)"}[mode],
+             "history": hist_show(small), "failing_operation": j2[0], "what": j2[1], "impl": a2[:400], "expected": j2[2][:400],
+             "corpus": name, "failing_histories_in_this_run": len(fails)}
+        found += run.report_witness(w)
     return found
 
 
@@ -304,7 +701,7 @@ def replay(run, path):
         if not w or "request" not in w:
             print("replay: no concrete input recorded (%s)" % json.dumps(v.get("broken") or w)[:400])
             continue
-        a = vf.run_lines(T.HARNESS, [w["request"]])[0]
+        a = vf.run_lines(T.HARNESS, [w["request"]], env=henv(run))[0]
         same = a[:400] == w["impl"]
         print("replay %s...: impl=%s  (%s)" % (w["request"][:80], a[:120], w["what"]))
         bad += same
